@@ -619,6 +619,9 @@ def run(chk):
         return True, "", [x[0] for x in ts] + [fid[0][0], fnm[0][0]]
     chk.ob("C11.R10:fixed-width-names", "every numeric component of a file name is zero-padded to a fixed width, coarse to fine, so descending name order is newest first", r10)
 
+    # size-based rolling relies on the batch's byte accounting: clear() really empties it (shared with C09)
+    from . import batcher
+    batcher.channel_impls(chk, P, "C11.channel")
     common.builder_rules(chk, P, "C11", lambda b: b.key.startswith("emit_file::FileSetBuilder::"), 7)
     common.arg_agreement_rule(chk, P, "C11", [("emit_file", None)], 5)
     return chk
